@@ -237,6 +237,27 @@ void h_element_old_formats_v2_s3() { element_old_formats(3, 2); }
 void h_element_old_formats_v3_s1() { element_old_formats(1, 3); }
 void h_element_old_formats_v3_s2() { element_old_formats(2, 3); }
 void h_element_old_formats_v3_s3() { element_old_formats(3, 3); }
+// two files of different minor versions loaded in one process: the reader follows the version of the file it is reading,
+// not the version of the first file it ever saw
+static std::ostream g_out_b; static std::istream g_in_b; static InterrogateElement g_ex_b, g_ey_b;
+static void element_two_versions(int v_first, int v_second) {
+  g_vu_shape = 1; g_vu_k = 0;
+  havoc_InterrogateElement(g_ex); havoc_InterrogateElement(g_ex_b);
+  InterrogateDatabase::_file_minor_version = v_first;
+  spec_write_element(g_out, g_ex, v_first); g_out << "\n";
+  g_in._from(g_out);
+  g_ey.input(g_in);
+  InterrogateDatabase::_file_minor_version = v_second;
+  spec_write_element(g_out_b, g_ex_b, v_second); g_out_b << "\n";
+  g_in_b._from(g_out_b);
+  g_ey_b.input(g_in_b);
+  OBL(!g_in_b.fail() && g_in_b._at_end_modulo_ws(), "C12.old_formats: a file of another minor version, read after the first one in the same process, is read in ITS format (consumed exactly)");
+  OBL(g_ey_b._flags == g_ex_b._flags && g_ey_b._getter == g_ex_b._getter && g_ey_b._scoped_name == g_ex_b._scoped_name && g_ey_b._comment == g_ex_b._comment, "C12.old_formats: the second file's members read back");
+  OBL(v_second >= 3 ? (g_ey_b._insert_function == g_ex_b._insert_function && g_ey_b._getkey_function == g_ex_b._getkey_function) : (g_ey_b._insert_function == 0 && g_ey_b._getkey_function == 0), "C12.old_formats: insert/getkey of the second file follow the second file's version");
+  VU_REACHED();
+}
+void h_element_two_versions_new_then_old() { element_two_versions(3, 1); }
+void h_element_two_versions_old_then_new() { element_two_versions(1, 3); }
 // the format-spec writer for minor version 3 is the real writer
 static std::ostream g_out2;
 static void element_spec_writer(int shape) {
